@@ -218,6 +218,19 @@ fn list_specs(n: usize) -> Vec<Spec> {
     v
 }
 
+/// Like `list_specs` with another parameter-name prefix (for inner resources of the nested phase).
+fn list_specs_named(n: usize, name_prefix: &str) -> Vec<Spec> {
+    let ps = gen::pats(n, name_prefix);
+    let mut v = Vec::new();
+    for a in &ps {
+        for b in &ps {
+            v.push(Spec::list(vec![a.clone(), b.clone()], false));
+            v.push(Spec::list(vec![a.clone(), b.clone()], true));
+        }
+    }
+    v
+}
+
 /// Three-pattern lists with a repeated member: [a, a, b] and [a, b, b] for every ordered pair of
 /// distinct patterns (a repeated pattern must not disturb which list member supplies the captures).
 fn list3_specs(n: usize) -> Vec<Spec> {
@@ -603,7 +616,9 @@ fn main() {
     // 3. nested: a prefix resource (1 element / edge case / list) then an inner resource on the same Path
     let mut outer: Vec<Spec> = single_specs(1, "p").into_iter().filter(|s| s.prefix).collect();
     outer.extend(lists1.iter().filter(|s| s.prefix).step_by(7).cloned());
-    let inner = single_specs(2, "q");
+    let mut inner = single_specs(2, "q");
+    // multi-pattern inner resources too (they capture from the unprocessed part of the path)
+    inner.extend(list_specs_named(1, "q").into_iter().filter(|s| !s.prefix).step_by(if thorough { 1 } else { 3 }));
     phase_nested(&r, &outer, &inner, &nested_paths);
     // 4. build + round trip
     let mut build_specs = singles.clone();
